@@ -233,3 +233,50 @@ func VC06_faithful() {
 		vrt.Assert(ok && v == vals[i], "Parse: stored value under the expanded name")
 	}
 }
+
+// VC06_shapes: well-formed files at the edges of the format: metadata that fills the header
+// exactly (no padding between metadata and the allocation limit), and a counter name of the
+// maximum length (4096 bytes, what a truncated stack counter gets).
+func VC06_shapes() {
+	data := make([]byte, c6Page)
+	copy(data, c6Prefix)
+	var meta string
+	var a string
+	full := vrt.Bool()
+	if full {
+		a = vrt.String(1)
+		vrt.Assume(a[0] != '\n' && a[0] != 0 && a[0] != ' ' && a[0] != '\t' && a[0] != '\r' && a[0] != '\v' && a[0] != '\f' && a[0] != 0x85 && a[0] != 0xA0 && a[0] < 0x80)
+		a += "xxxxxxxxxxxxxxxxxxxxxx"
+		meta = "A: " + a + "\nC: d\n" // 32 bytes: 28+4+32 = 64, no padding
+	} else {
+		a = "b"
+		meta = "A: b\nC: d\n"
+	}
+	hdrLen := (28 + 4 + len(meta) + 31) / 32 * 32
+	c6wr32(data, 28, uint32(hdrLen))
+	copy(data[32:], meta)
+	limit := (hdrLen + 4 + 2048 + 31) / 32 * 32
+	n := []int{1, 4095, 4096}[vrt.Choose(3)]
+	nb := make([]byte, n)
+	for i := range nb {
+		nb[i] = 'a'
+	}
+	name := string(nb)
+	val := vrt.U64()
+	off := limit
+	limit += (16 + n + 31) / 32 * 32
+	c6wr64(data, off, val)
+	c6wr32(data, off+8, uint32(n)|0xff000000)
+	headOff := hdrLen + 4 + 4*int(hash(name))
+	c6wr32(data, headOff, uint32(off))
+	copy(data[off+16:], name)
+	c6wr32(data, hdrLen, uint32(limit))
+	f, err := Parse("f", data)
+	vrt.Assert(err == nil, "Parse: accepts a well-formed file (full header / longest name)")
+	if err != nil {
+		return
+	}
+	vrt.Assert(len(f.Meta) == 2 && f.Meta["A"] == a && f.Meta["C"] == "d", "Parse: metadata key/values when the header has no padding")
+	v, ok := f.Count[name]
+	vrt.Assert(len(f.Count) == 1 && ok && v == val, "Parse: a name of the maximum length is read back")
+}
